@@ -40,11 +40,11 @@ const (
 var loaderNames = [...]string{"NewFromMultihash", "NewFromJSON", "NewFromEntry", "NewFromEntryHash"}
 
 type loadSpec struct {
-	loader  int
-	conc    int
-	length  *int
-	bias    int
-	cancelRate int
+	loader      int
+	conc        int
+	length      *int
+	bias        int
+	cancelRate  int
 	timeoutless bool
 }
 
